@@ -63,4 +63,17 @@ PROPS = {
         "technique": "Lean 4 proof (heap/binding invariant preserved by every step; induction over the schedule and over the Interleaving derivation) + differential correspondence under controlled and free interleavings + solo-equivalence oracle",
         "assumptions": ["context.WithValue lookups return the innermost binding of ctxBatch{}", "handlers access the placeholder only through IdPlaceholder/SetIdPlaceholder/ClearIdPlaceholder with the context they were given"],
     },
+    "C19": {
+        "level": "proof",
+        "level_text": "Lean 4 theorem runImpl = runSpec for every chain length, every stage program (call next 0/1/n times, retry while failed, replace message/context, short-circuit, (nil,err), swallow/rewrite result) and every scripted handler, for the client chain, the server message chain and the server batch-item chain (one generic definition following nextFrom(i), three instances); corollaries: the trace is one well-nested execution in registration order in which each stage receives exactly what its predecessor passed and gets back exactly what its successor returned; the handler runs Prod k_i times under stages calling next k_i times; the pre-fix code (shared cursor, original request forwarded) is refuted by decide on 2-stage chains. The model is tied to the code by differential runs of real Client.Roundtrip / BatchExecutor.HandleRequest with the stage programs installed as real middlewares.",
+        "level_note": "Trusted: Lean kernel; the stage-program interpreter and token markers of the harness (shared by the real adapters and the Go reference); concurrency is covered by the stateless-run argument plus concurrent runs of the engine, not by a Lean interleaving model. Middlewares that mutate the received message in place or panic are outside the alphabet.",
+        "technique": "Lean 4 proof (induction on chain.length - i for nextFrom, on the chain and on the action list for the corollaries) + differential correspondence + reference-interpreter / trace-grammar oracles",
+        "engines": ["mw"],
+        "required_theorems": ["nextFrom_is_composition", "runImpl_eq_runSpec", "client_chain", "server_message_chain", "server_item_chain", "trace_wellNested", "pipeline_substitution", "core_runs_product", "chain_append"],
+        "assumptions": [
+            "runImpl (Kmip.Mw.nextFrom, coreResult, finish, hdrOf) is the behaviour of Client.nextFrom / BatchExecutor.nextFrom / biNextFrom and their entry points: checked on this run by engine `mw` (equal result and full trace on every generated chain)",
+            "a run touches no state outside its arguments (c.middlewares / exec.middlewares are read-only after setup): supported by the concurrent phase of engine `mw`",
+            "client kind: the innermost transport is scripted by a last middleware; the real doRountrip variant is compared by the impl-side oracle `real-transport`",
+        ],
+    },
 }
